@@ -376,10 +376,11 @@ def replay_text(case, obs, mode):
             "class IBase(Interface):\n%s\nclass I(IBase):\n%s\nclass C:\n%s\n"
             "# (exact construction: harness/drivers/c17_driver.py build_candidate; replay with bin/check C17 --replay <this file>)\n"
             "# look-ups performed before verifying (interface, operation, name): %r\n"
+            "# names reported by I.namesAndDescriptions(all=True) after verifying (element numbers): %r\n"
             "# observed: %r"
             % ("1" if mode == "py" else "0", case["cand"], case["declare"], case["tentative"],
                "Class" if case["vt"] == "c" else "Object", "\n".join(body) or "    pass", "\n".join(own) or "    pass",
-               "\n".join(cls) or "    pass", case.get("pre", []), obs.get("out")))
+               "\n".join(cls) or "    pass", case.get("pre", []), obs.get("order"), obs.get("out")))
 
 
 TECHNIQUE = ("Coq proof over a Gallina kernel regenerated from verify._incompat by a fail-closed translator plus a "
